@@ -329,7 +329,7 @@ def run(ctx: Ctx):
                        "where evaluation orders disagree the job may fault iff the most eager order faults and may yield rows iff call-by-need does"]
     for be in BACKENDS:
         cxx.std_model(be)
-    total = ctx.n(208, 4800)
+    total = ctx.n(400, 4800)
     shards = 16
     payloads = [(derive_seed(ctx.seed, "C04", i), max(1, total // shards), ctx.deadline, BACKENDS[i % 3]) for i in range(shards)]
     for st_ in run_shards("vf.props.C04", "worker", payloads):
